@@ -12,6 +12,9 @@ pub mod c09;
 pub mod c10;
 pub mod c13;
 pub mod c14;
+pub mod c15;
+pub mod c16;
+pub mod c17;
 pub mod c18;
 pub mod c19;
 
@@ -55,6 +58,9 @@ registry! {
     "C10" => c10,
     "C13" => c13,
     "C14" => c14,
+    "C15" => c15,
+    "C16" => c16,
+    "C17" => c17,
     "C18" => c18,
     "C19" => c19,
 }
